@@ -30,9 +30,9 @@ PROP = {
                   "unparsable timestamps are outside the property's domain and not generated. Trusts the time "
                   "package for formatting/parsing RFC 3339 timestamps and the OS for regular-file reads.",
     "tests": [
-        ("TestVFC20FileReverse", (800, 5000)),
-        ("TestVFC20FileSeek", (500, 2500)),
-        ("TestVFC20Reader", (1000, 5000)),
+        ("TestVFC20FileReverse", (600, 5000)),
+        ("TestVFC20FileSeek", (400, 2500)),
+        ("TestVFC20Reader", (800, 5000)),
     ],
     "plain": ["TestVFC20Regress"],
     "shards": (4, 16),
